@@ -13,7 +13,8 @@ EXTENDS Integers, Sequences, FiniteSets, TLC
 
 Secrets  == {"none", "s1", "s2"}
 CONSTANT Classes   \* subset of {"absent", "valid_s1", "valid_s2", "wrongsig", "alg_none", "alg_rs256", "expired",
-                   \*            "future_near", "future_far", "garbage", "payload_tampered", "header_tampered", "empty_key"}
+                   \*            "future_near", "future_far", "garbage", "payload_tampered", "header_tampered", "empty_key",
+                   \*            "just_expired" (3 s ago: no leeway on exp), "expires_soon" (in 45 s)}
 Carriers == {"header", "query", "cookie"}
 Endpoints == {"relay", "smoketest"}
 
@@ -22,6 +23,7 @@ Verifies(cls, s) ==
   \/ (cls = "valid_s1" /\ s = "s1")
   \/ (cls = "valid_s2" /\ s = "s2")
   \/ (cls = "future_near" /\ s = "s1")
+  \/ (cls = "expires_soon" /\ s = "s1")
   \/ (cls = "empty_key" /\ s = "none")     \* signed with the empty key: what "no secret" would verify if it were used as one
 
 \* a header without the "Bearer " prefix counts as no header token
@@ -51,6 +53,6 @@ ASpec == AInit /\ [][ANext]_avars
 NoSecretNoEntry  == (secret = "none" /\ ~last.rotated) => ~last.admit
 RejectedIsInert  == [][(~last'.admit /\ ~last'.rotated) => entered' = entered]_avars
 OldSecretRejected == (~last.rotated /\ last.admit) =>
-                        LET c == Effective(last.req) IN (secret = "s1" => c \in {"valid_s1", "future_near"}) /\ (secret = "s2" => c = "valid_s2")
+                        LET c == Effective(last.req) IN (secret = "s1" => c \in {"valid_s1", "future_near", "expires_soon"}) /\ (secret = "s2" => c = "valid_s2")
 OnlyFirstCounts  == (~last.rotated /\ last.admit /\ last.req.header # "absent" /\ last.req.bearer) => Verifies(last.req.header, secret)
 =============================================================================
